@@ -78,7 +78,10 @@ def gen_case(rng):
             "turn_id": rng.choice([1, 1, 7, "x", 0, 0]), "cadence": rng.choice([1, 1, 2, 3]), "overlap": overlap,
             # optionally each agent's turn carries its own id (set by the compute phase), ascending in task order and straddling
             # a digit boundary / zero
-            "turn_base": rng.choice([None, None, 7, 8, 9, 97, 99, -2, -1])}
+            "turn_base": rng.choice([None, None, 7, 8, 9, 97, 99, -2, -1]),
+            # what the batch ctx carries besides the config: present-but-falsy values are values (epoch 0, seed 0, empty budgets)
+            "ctx_attrs": rng.choice([None, None, {"now_ms": 0, "seed": 0}, {"now_ms": 1700000000000, "seed": 7, "now": "2023-11-14T22:13:20Z"}, {"now_ms": 0, "now": None, "slice_budgets": {}, "slice_idx": 0},
+                                     {"now_ms": 5, "seed": 0, "slice_budgets": {"t2_k": 1}, "slice_idx": 2}, {"now": "", "seed": None}])}
 
 
 def make_standin(case, trace):
@@ -92,6 +95,10 @@ def make_standin(case, trace):
         trace.append(("dry" if dry else "full", aid))
         if case.get("turn_base") is not None:
             ctx.turn_id = case["turn_base"] + case["agents"].index(aid)
+        if case.get("ctx_attrs") is not None:
+            # what the turn sees of the caller's context (logical clock, seed, slice position / budgets)
+            core._append_jsonl("t1.jsonl", {"turn": getattr(ctx, "turn_id", 0), "agent": aid,
+                                            "ctx_view": {k_: repr(getattr(ctx, k_, "<absent>")) for k_ in ("now", "now_ms", "seed", "slice_idx", "slice_budgets")}})
         for name, payload in spec["logs"]:
             pl = dict(payload)
             if case.get("turn_base") is not None:
@@ -162,7 +169,7 @@ def run_driver(case, parallel, sess, direct=False):
                     state["graphs_by_agent"][a] = list(g)
                 else:
                     state["graphs_by_agent"][a] = list(g)
-            ctx = NS(turn_id=case["turn_id"], agent_id="batch", cfg=cfg, config=cfg, now_ms=0)
+            ctx = NS(turn_id=case["turn_id"], agent_id="batch", cfg=cfg, config=cfg, **(case.get("ctx_attrs") or {"now_ms": 0}))
             trace = []
             computed = []
             flushes = [0]
@@ -193,7 +200,7 @@ def run_driver(case, parallel, sess, direct=False):
                         # the plain loop a caller would write without the driver: one ctx per agent, same config objects
                         res = []
                         for a_, text_ in tasks:
-                            c_ = NS(turn_id=case["turn_id"], agent_id=a_, cfg=cfg, config=cfg, now_ms=0)
+                            c_ = NS(turn_id=case["turn_id"], agent_id=a_, cfg=cfg, config=cfg, **(case.get("ctx_attrs") or {"now_ms": 0}))
                             res.append(core.Orchestrator().run_turn(c_, state, text_))
                     else:
                         res = P._run_agents_parallel_batch(ctx, state, tasks)
